@@ -87,5 +87,18 @@ C17f C10
 C19f C19
 C19f C02
 C09e C02
+C04g C04
+C07g C07
+C08g C08
+C09g C09
+C10g C10
+C12g C12
+C12g C13
+C13g C13
+C15g C15
+C16g C16
+C18g C18
+C18g C02
+C20g C20
 LIST
 cat $out
